@@ -171,7 +171,11 @@ class PolygonFilter(object):
         # sort points
         points.sort()
         # get only coordinates from points
-        self.points = np.array([p[1] for p in points])
+        if points:
+            self.points = np.array([p[1] for p in points])
+        else:
+            # a filter without points is stored without any point line
+            self.points = np.zeros((0, 2), dtype=np.float64)
 
         if unique_id is None:
             # overwrite unique id
